@@ -409,7 +409,7 @@ class P_cif(StructureParser):
                     # stop after reading the first structure
                     if self.stru is not None:
                         break
-        except (YappsSyntaxError, StarError, ValueError, IndexError, KeyError) as err:
+        except (YappsSyntaxError, StarError, ValueError, IndexError, KeyError, ZeroDivisionError) as err:
             exc_type, exc_value, exc_traceback = sys.exc_info()
             emsg = str(err).strip()
             e = StructureFormatError(emsg)
